@@ -137,6 +137,15 @@ class BitsStream(runner.Stream):
             "bits sro 00000000 0 00 9",
             "bits buf wb:1 w:00:0:40",                 # failed write must not grow the buffer
         ]
+        # single writes that make the buffer grow by more than 64K octets (whole octets: one call of the model;
+        # the unaligned ones take the Lean mirror a minute each and run in the thorough tier)
+        big = rng.fork("big")
+        reqs += [f"bits buf ww:{hexs(big.bytes(65537))}", f"bits buf ww:{hexs(big.bytes(65536))}",
+                 f"bits buf ww:{hexs(big.bytes(3))} ww:{hexs(big.bytes(70000))} wb:1 rr:2",
+                 f"bits buf wl:{hexs(big.bytes(66000))}:{8 * 65999} wb:0"]
+        if tier != "quick":
+            reqs += [f"bits buf wb:1 wb:0 wb:1 w:{hexs(big.bytes(70001))}:5:559997 wb:1",
+                     f"bits buf wb:1 wo:{hexs(big.bytes(65540))}:3"]
         # exhaustive small buffers, two fill patterns
         maxb = 3 if tier == "quick" else 4
         pats = [(0xA5, 0xFF), (0x3C, 0x00)]
